@@ -481,7 +481,12 @@ class CodeGen:
             n = e.get("n")
             return "LinComb.from_bits(%s.to_bits(%s))" % (self.ex(e["args"][0]), "" if n is None else repr(n))
         if c == "aget":
-            return "%s[%s]" % (self.var("A", e["arr"]), self.ex(e["ix"]))
+            ix = e["ix"]
+            if isinstance(ix, list):
+                if e.get("chained"):
+                    return self.var("A", e["arr"]) + "".join("[%s]" % self.ex(i) for i in ix)
+                return "%s[%s]" % (self.var("A", e["arr"]), ", ".join(self.ex(i) for i in ix))
+            return "%s[%s]" % (self.var("A", e["arr"]), self.ex(ix))
         if c == "poseidon":
             return "__poseidon__([%s])[0]" % ", ".join(self.ex(x) for x in e["args"])
         raise ValueError("unknown call " + c)
@@ -664,12 +669,23 @@ class CodeGen:
 
     def st_array(self, s):
         nm = self.new_var("A")
-        src = "Array([%s])" % ", ".join(self.ex(x) for x in s["els"])
+        if s.get("rows"):
+            src = "Array([%s])" % ", ".join("Array([%s])" % ", ".join(self.ex(x) for x in row) for row in s["rows"])
+        else:
+            src = "Array([%s])" % ", ".join(self.ex(x) for x in s["els"])
         self.emit("%s = %s" % (nm, src))
         self.step({"kind": "array", "var": nm})
 
     def st_aset(self, s):
-        src = "%s[%s] = %s" % (self.var("A", s["arr"]), self.ex(s["ix"]), self.ex(s["value"]))
+        ix = s["ix"]
+        if isinstance(ix, list):
+            if s.get("chained"):
+                tgt = self.var("A", s["arr"]) + "".join("[%s]" % self.ex(i) for i in ix)
+            else:
+                tgt = "%s[%s]" % (self.var("A", s["arr"]), ", ".join(self.ex(i) for i in ix))
+        else:
+            tgt = "%s[%s]" % (self.var("A", s["arr"]), self.ex(ix))
+        src = "%s = %s" % (tgt, self.ex(s["value"]))
         self.wrap_try(s, lambda: self.emit(src))
         self.step({"kind": "aset", "desc": {"op": "aset"}})
 
@@ -828,6 +844,55 @@ class CodeGen:
         self.wrap_try(s, body)
         self.step({"kind": "after_block", "desc": {"op": "block_for", "checkstopmax": bool(s.get("checkstopmax")),
                                                      "breakif": s.get("breakif") is not None}})
+
+    # -- @snark calls (C17) -----------------------------------------------------------------
+    def struct_src(self, v, leaf):
+        if isinstance(v, dict) and v.get("struct") == "list":
+            return "[%s]" % ", ".join(self.struct_src(x, leaf) for x in v["items"])
+        if isinstance(v, dict) and v.get("struct") == "tuple":
+            return "(%s,)" % ", ".join(self.struct_src(x, leaf) for x in v["items"])
+        if isinstance(v, dict) and v.get("struct") == "dict":
+            return "{%s}" % ", ".join("%r: %s" % (k, self.struct_src(x, leaf)) for k, x in v["items"])
+        return leaf(v)
+
+    def snark_leaf_arg(self, v):
+        if "ref" in v:
+            return self.var(v["t"], v["ref"])
+        return repr(v["k"])
+
+    def snark_leaf_ret(self, v):
+        if "leaf" in v:
+            return "_l[%d]" % v["leaf"]
+        if "k" in v:
+            return repr(v["k"])
+        if "op" in v:
+            return "(%s %s %s)" % (self.snark_leaf_ret(v["a"]), v["op"], self.snark_leaf_ret(v["b"]))
+        raise ValueError(v)
+
+    def st_snark_call(self, s):
+        self.rid += 1
+        n = self.rid
+        nargs = len(s["args"])
+        params = ", ".join("_p%d" % i for i in range(nargs))
+        self.emit("def _f%d(%s):" % (n, params))
+        self.ind += 1
+        self.emit("_l = __flat__([%s])" % params)
+        self.emit("return %s" % self.struct_src(s["ret"], self.snark_leaf_ret))
+        self.ind -= 1
+        args = ", ".join(self.struct_src(a, self.snark_leaf_arg) for a in s["args"])
+        if s.get("kwargs"):
+            args += (", " if args else "") + "extra=1"
+        def body():
+            if self.mode == "native":
+                if s.get("kwargs"):
+                    self.emit("raise ValueError('kwargs')")
+                self.emit("_ret%d = _f%d(%s)" % (n, n, args))
+            else:
+                self.emit("__callstart__(%d)" % n)
+                self.emit("_ret%d = snark(_f%d)(%s)" % (n, n, args))
+            self.emit("__callend__(%d, _ret%d)" % (n, n))
+        self.wrap_try(s, body)
+        self.step({"kind": "snark_call", "desc": {"op": "snark_call"}})
 
     def schema_src(self, sc):
         k = sc[0]
